@@ -1,14 +1,14 @@
 SPECIFICATION Spec
 CONSTANTS
-  K = 2
-  NPKG = 4
+  K = 1
+  NPKG = 2
   PEERANSWERS = TRUE
   CLOSESIGNAL = TRUE
   Closers = {"X"}
   RECHECK = TRUE
-  SENDER = FALSE
+  SENDER = TRUE
   RELOCK = FALSE
   GEN = FALSE
 INVARIANTS C13_NoDeliveryAfterClose C13_ClosedReported
-PROPERTIES C13_CloseReturns C13_RecvReturnsAfterCancel
+PROPERTIES C13_SendReturns C13_CloseReturns C13_RecvReturnsAfterCancel
 CHECK_DEADLOCK FALSE
